@@ -506,6 +506,7 @@ def decide(q, mir, repo, work, logf, log, extra):
     sat = [b for b in bad if b[1][0] == "sat"]
     if not sat:
         return "inconclusive", "solver returned unknown for: " + "; ".join(g[0] for g, a in bad[:3])
+    extra["sat_goals"] = [g[0] for g, a in sat]
     # a counterexample: fetch the model, replay natively
     (gname, gterm, ghyps), _ = sat[0]
     hyp = "".join("(assert %s)\n" % h for h in (ghyps if gname.startswith("no-panic") else no_panic))
